@@ -1,5 +1,5 @@
 From Coq Require Import List NArith Bool.
-From V.C13 Require Import Model Proofs.
+From V.C13 Require Import Model Proofs Flush.
 Import ListNotations.
 Open Scope N_scope.
 From V.C13 Require Import Properties.
@@ -19,6 +19,24 @@ Check (C13_exactly_one_contract :
     discharged (grun cf g0 (run_steps cf (init_pst, init_env) evs)) ->
     In (OSent r) (snd res) ->
     terms r (snd res) = 1%nat \/ In r (cancel_reqs evs)).
+Check (C13_exactly_one_flushed :
+  forall (cf : cfg) (evs : list ev) (r : N),
+    0 < tmo cf ->
+    let g := grun cf g0 (run_steps cf (init_pst, init_env) evs) in
+    let res := run cf (init_pst, init_env) (evs ++ flush_evs cf g) in
+    In (OSent r) (snd res) ->
+    terms r (snd res) = 1%nat \/ In r (cancel_reqs evs)).
+Check (C13_flush_discharges :
+  forall (cf : cfg) (evs : list ev) (ds cs : list N) (dt : N),
+    0 < tmo cf -> tmo cf < dt ->
+    let g := grun cf g0 (run_steps cf (init_pst, init_env) evs) in
+    (forall p, In p (g_dials g) -> In p ds) -> (forall p, In p (g_conn g) -> In p cs) ->
+    discharged (grun cf g0 (run_steps cf (init_pst, init_env) (evs ++ flush_of ds cs dt)))).
+Check (C13_opens_on_connections :
+  forall (cf : cfg) (evs : list ev) (sid p : N),
+    0 < tmo cf ->
+    let g := grun cf g0 (run_steps cf (init_pst, init_env) evs) in
+    In (sid, p) (g_opens g) -> In p (g_conn g)).
 Check (C13_exactly_one_settled :
   forall (cf : cfg) (evs : list ev) (r : N),
     let res := run cf (init_pst, init_env) evs in
@@ -66,11 +84,35 @@ Check (C13_channel_nothing_lost :
     let st := relay_run cap o ms in
     rl_delivered st ++ rl_queue st ++ rl_pending st = o /\ (length (rl_queue st) <= cap)%nat).
 Check (C13_dial_refused_one_failure :
-  forall (s : pst) (p len tag : N) fb (ok : bool) (sid : N),
+  forall (s : pst) (p len tag : N) fb (ok : bool) (dres sid : N),
+    memN p (peers s) = false -> dial_accepted dres = false ->
+    let r := h_send s p true len tag fb ok dres sid in
+    snd r = [OSent (next_rid s); OFail (next_rid s) (E_DIAL_IMM dres)] /\
+    dials (fst r) = dials s /\ active (fst r) = active s /\ pouts (fst r) = pouts s /\ futs (fst r) = futs s).
+Check (C13_send_dial_step :
+  forall (cf : cfg) (s : pst) (en : env) (p len tag : N) fb,
     memN p (peers s) = false ->
-    snd (h_send s p true len tag fb ok false sid) = [OSent (next_rid s); OFail (next_rid s) E_DIAL_IMMEDIATE] /\
-    dials (fst (h_send s p true len tag fb ok false sid)) = dials s /\
-    active (fst (h_send s p true len tag fb ok false sid)) = active s).
+    let r := step cf (s, en) (ESend p true len tag fb) in
+    let rid := next_rid s in
+    (dial_accepted (dial_res cf en p) = true /\ snd (fst r) = [OSent rid; ODial p] /\
+     dials (fst (fst (fst r))) = dials s ++ [(p, mkReq rid len tag fb)]) \/
+    (dial_accepted (dial_res cf en p) = false /\
+     snd (fst r) = [OSent rid; OFail rid (E_DIAL_IMM (dial_res cf en p))] /\
+     dials (fst (fst (fst r))) = dials s /\ active (fst (fst (fst r))) = active s /\
+     pouts (fst (fst (fst r))) = pouts s /\ futs (fst (fst (fst r))) = futs s)).
+Check (C13_dial_res_cases :
+  forall (cf : cfg) (en : env) (p : N),
+    let r := dial_res cf en p in
+    (r = D_SELF /\ selfp cf && (p =? SELF_PEER) = true) \/
+    (selfp cf && (p =? SELF_PEER) = false /\
+     ((r = D_NOADDR /\ (mview cf en p = 0 \/ mview cf en p = 4)) \/
+      (r = D_CONNECTED /\ mview cf en p = 2) \/
+      (r = D_INPROGRESS /\ (mview cf en p = 3 \/ mview cf en p = 5 \/ mview cf en p = 6)) \/
+      (mview cf en p <> 0 /\ mview cf en p <> 2 /\ mview cf en p <> 3 /\ mview cf en p <> 4 /\
+       mview cf en p <> 5 /\ mview cf en p <> 6 /\
+       ((r = D_TASKCLOSED /\ mgr en = false) \/
+        (r = D_CLOGGED /\ mgr en = true /\ a_clog (aux_of en) = true) \/
+        (r = D_OK /\ mgr en = true /\ a_clog (aux_of en) = false)))))).
 Check (C13_unrepaired_refuted :
   exists s o,
     (let '(s1, o1) := h_send_unrepaired init_pst 0 true 3 10 false true 0 in
